@@ -523,6 +523,16 @@ pub fn s_return(e: TE, form: usize) -> TS {
             t.push(give);
             t.extend(e.0);
         }
+        6 => {
+            t.push(give);
+            t.push(kw("back"));
+            t.extend(e.0);
+            t.push(kw("back"));
+        }
+        7 => {
+            t.push(send);
+            t.extend(e.0);
+        }
         _ => {
             t.push(send);
             t.extend(e.0);
